@@ -15,6 +15,7 @@ import (
 	"fmt"
 	"io"
 	"net/http"
+	"net/url"
 	"os"
 	"path/filepath"
 	"strings"
@@ -139,6 +140,9 @@ func deviations(e *modelreg.Entry, n *modelreg.Net) []string {
 	case "upload-put":
 		if len(e.Body) > 0 {
 			d := []string{"ok", "500", "reset", "413", "applied-reset"}
+			if e.Query.Get("_moved") == "" {
+				d = append(d, "redir-307")
+			}
 			// the connection is lost in the middle of the body: the session keeps the prefix it received
 			if h := n.Hosts[e.Host]; h != nil {
 				if up := h.Repo(e.Repo).Uploads[e.Ref]; up != nil && len(up.Data) == 0 && e.Header.Get("Content-Range") == "" {
@@ -172,6 +176,9 @@ func deviations(e *modelreg.Entry, n *modelreg.Net) []string {
 			return []string{"ok", "500", "reset"}
 		}
 		d := []string{"ok", "500", "reset", "applied-reset", "early-201", "416-resync", "no-range"}
+		if len(e.Body) > 0 && e.Query.Get("_moved") == "" {
+			d = append(d, "redir-307")
+		}
 		for k := 1; k < len(e.Body) && k <= 3; k++ {
 			d = append(d, fmt.Sprintf("partial-%d", k))
 		}
@@ -180,6 +187,17 @@ func deviations(e *modelreg.Entry, n *modelreg.Net) []string {
 		return []string{"ok", "500"}
 	}
 	return []string{"ok"}
+}
+
+func relocate(e *modelreg.Entry) *modelreg.Answer {
+	q := url.Values{}
+	for k, v := range e.Query {
+		q[k] = v
+	}
+	q.Set("_moved", "1")
+	a := &modelreg.Answer{Status: 307, Header: http.Header{}, Note: "dev-redir-307"}
+	a.Header.Set("Location", e.Path+"?"+q.Encode())
+	return a
 }
 
 func run(t *testing.T, c *explore.Ctx, cfg Cfg, scratch string) *result {
@@ -239,7 +257,9 @@ func run(t *testing.T, c *explore.Ctx, cfg Cfg, scratch string) *result {
 		net := modelreg.NewNet()
 		res.net = net
 		f := modelreg.Full()
-		f.Location = cfg.Loc
+		if cfg.Loc != "redir" {
+			f.Location = cfg.Loc
+		}
 		f.ChunkMin = cfg.MinCh
 		f.AnonMount = cfg.Mount == "anon"
 		h := net.AddHost(host, f)
@@ -259,6 +279,11 @@ func run(t *testing.T, c *explore.Ctx, cfg Cfg, scratch string) *result {
 				return &modelreg.Answer{Err: errors.New("harness: request horizon")}
 			}
 			cutUnit = cfg.Chunk
+			if cfg.Loc == "redir" && len(e.Body) > 0 && e.Query.Get("_moved") == "" && (e.Kind == "upload-put" || e.Kind == "upload-patch") {
+				// configuration, not a deviation: a front end that relocates every data-carrying
+				// request of the session (307: same method, same body, other URL)
+				return relocate(e)
+			}
 			devs := deviations(e, net)
 			ch := c.Choose(e.Kind, len(devs), nil)
 			if ch == 0 {
@@ -279,6 +304,10 @@ func run(t *testing.T, c *explore.Ctx, cfg Cfg, scratch string) *result {
 				return &modelreg.Answer{Status: 500, Header: http.Header{}, Body: []byte("{}"), Note: "fault-500"}
 			case dv == "reset":
 				return &modelreg.Answer{Err: errors.New("connection reset by peer"), Note: "fault-reset"}
+			case dv == "redir-307":
+				// a front end relocates the data-carrying request itself (307: same method, same
+				// body, other URL); net/http follows it and asks the request for a fresh body
+				return relocate(e)
 			case dv == "413":
 				return &modelreg.Answer{Status: 413, Header: http.Header{}, Body: []byte("{}"), Note: "fault-413"}
 			case dv == "applied-reset":
@@ -442,7 +471,9 @@ func judge(r *result) (string, string) {
 	if r.hostile {
 		return "", ""
 	}
-	live := cfg.Reader != "noseek" || len(r.faults) == 0
+	// a source that cannot be rewound cannot be sent a second time: after a transient failure or a
+	// relocation of the data-carrying request no client can complete it (safety clauses still apply)
+	live := cfg.Reader != "noseek" || (len(r.faults) == 0 && cfg.Loc != "redir")
 	if cfg.Target == "dir" {
 		live = true
 	}
@@ -495,7 +526,7 @@ func grid(thorough bool) []item {
 					}
 					for _, a := range []string{"sha256", "sha512"} {
 						for _, rd := range readers {
-							for _, loc := range []string{"", "abs", "query"} {
+							for _, loc := range []string{"", "abs", "query", "redir"} {
 								for _, mc := range []int{0, c + 1, 3 * c} {
 									if (loc != "" || mc != 0) && (a == "sha512" || rd == "onebyte" || strings.HasPrefix(rd, "failmid")) {
 										continue
@@ -540,8 +571,11 @@ func grid(thorough bool) []item {
 						continue
 					}
 					for _, rd := range []string{"seek", "noseek"} {
-						for _, loc := range []string{"", "query"} {
-							if loc != "" && (d != "right" || rd != "seek") {
+						for _, loc := range []string{"", "query", "redir"} {
+							if loc == "query" && (d != "right" || rd != "seek") {
+								continue
+							}
+							if loc == "redir" && d != "right" && d != "absent" {
 								continue
 							}
 							bb := b
@@ -569,7 +603,7 @@ type replay struct {
 func TestVerifC05(t *testing.T) {
 	rec := ev.New()
 	defer rec.Flush(t)
-	rec.Rule("configuration grid = blob length around every chunk/max boundary × chunk size × single-request limit × declared descriptor {absent, right, wrong digest, size±1, size only, digest only} × {sha256, sha512} × reader {seekable, non-seekable, one byte at a time, failing half way (plain and rewindable)} × upload Location style × server minimum chunk × anonymous mount declined / accepted (another repository holds the declared digest) × destination {registry model, OCI layout}; " +
+	rec.Rule("configuration grid = blob length around every chunk/max boundary × chunk size × single-request limit × declared descriptor {absent, right, wrong digest, size±1, size only, digest only} × {sha256, sha512} × reader {seekable, non-seekable, one byte at a time, failing half way (plain and rewindable)} × upload Location style {relative, absolute, with query, every data-carrying request relocated by a 307} × server minimum chunk × anonymous mount declined / accepted (another repository holds the declared digest) × destination {registry model, OCI layout}; " +
 		"for the registry additionally every sequence of at most k deviations at the upload requests {500, connection reset, reply lost after the server applied the request, connection lost in the middle of the single PUT's body with the received prefix kept by the session (cut after 1, chunk, chunk+1, 2·chunk+1, all-but-one bytes), 413 on the single PUT, early 201, 416 re-sync, 202 without Range, partial acceptance of 1..3 bytes of a chunk}, k=2 quick / 3 thorough. " +
 		"Oracle: committed bytes under the returned digest = stream; a failing source ⇒ error and nothing committed under the declared, the full or the prefix digest; declared≠actual ⇒ error and nothing under the declared digest; well-formed input against conforming behaviour succeeds. distinct_nontrivial = distinct (configuration, deviation list, outcome)")
 	rec.Assume("the in-memory transport reproduces net/http's Content-Length enforcement; all deviations offered are behaviours a conforming registry or a flaky network may show")
